@@ -853,3 +853,36 @@ def fill_option_rule(run, f, rid):
             run.fail(rid, fn.rsplit("::", 1)[1] + "/fill-option", b.loc(), "%s: %s" % (fn.rsplit("::", 1)[1], "; ".join(why)))
         else:
             run.ok(rid, fn.rsplit("::", 1)[1] + "/fill-option", "getsockopt(fd, SOL_SOCKET, %s) -> %s" % (optname, tbl.rsplit("::", 1)[1]))
+
+
+# ------------------------------------------------------------------ C20: a readiness wait parks the coroutine where readiness looks for it
+def wait_in_syscall_rule(run, f, rid):
+    """Readiness (`EventLoop::resume(token)` -> `Scheduler::try_resume`) takes the waiter out of the scheduler's SYSCALL table.
+    A coroutine gets there only when it yields in state Syscall(.., Suspend(t)).  wait_just marks that state only if the
+    coroutine is already inside a hooked call (Syscall(.., Executing)); a coroutine that calls the public wait_*_event
+    directly (state Running) yields through the same `until()` into the plain suspend heap, where try_resume does not look:
+    it is woken by its timeout, not by the event.  Path by path: every path of wait_just to the yield passes the
+    Syscall(.., Suspend) transition."""
+    run.rule(rid, "every path of wait_just to the yield (Suspender::until) passes the transition to Syscall(.., Suspend(t))", floor=1, template="T2 (path by path)")
+    b = unit(run, rid, f, LOOP + "::wait_just")
+    if b is None:
+        return
+    un = [(x, t) for (x, t) in b.calls() if norm(t.get("callee") or "").endswith("Suspender::until") or norm(t.get("callee") or "").endswith("Suspender::until_with") or norm(t.get("callee") or "").endswith("Suspender::delay")]
+    sy = {x for (x, t) in b.calls() if norm(t.get("callee") or "") == CO + "::syscall"}
+    if not un:
+        run.ok(rid, "wait_just/yield-in-syscall-state", "wait_just does not yield")
+        return
+    n_ex = bad = 0
+    ux = un[0][0]
+    for (pth, _c, sv) in PathWalker(b).walk(0, lambda bid, t: ("yield",) if bid == ux else None):
+        if sv[0] != "yield":
+            continue
+        n_ex += 1
+        if not any(x in sy for x in pth):
+            bad += 1
+    if not run.paths(rid, "wait_just/yield-in-syscall-state", b.loc(), n_ex):
+        return
+    if bad:
+        run.fail(rid, "wait_just/until-outside-syscall", b.loc(un[0][1].get("line")), "wait_just yields (Suspender::until) on %d path(s) without having put the coroutine into Syscall(.., Suspend): a coroutine that waits through the public wait_read_event / wait_write_event outside a hooked call is parked in the plain suspend heap, readiness does not find it, and it is woken by its timeout instead of the event" % bad)
+    else:
+        run.ok(rid, "wait_just/yield-in-syscall-state", {"paths": n_ex})
